@@ -37,7 +37,7 @@ claimed = {
                   "inside the shape bound with all field values, hash types, input index, script code, amounts, annex / leaf hash / code-separator position symbolic, the digest equals the reference "
                   "(hashes are ghost byte streams compared under an injectivity assumption); cache-order independence; no digest where the BIPs define none; signature removal from the script code (delSig) equals Core's FindAndDelete for every short script/signature and for signatures of every push-encoding class.",
              ref="6/C02", note=NOTE + "H-inj: SHA-256 treated as injective on the streams hashed along a path. ref_bip341 has no external vectors in this tree. "),
- "C18": dict(text="Bounded model checking of the peer-message handlers' parse/validate prefixes (version, inv, getdata, headers, getheaders/getblocks locators, getblocktxn, cmpctblock) on every payload up to the "
+ "C18": dict(text="Bounded model checking of the peer-message handlers' parse/validate prefixes (message framing, version, inv, getdata, headers, getheaders/getblocks locators, getblocktxn, cmpctblock, blocktxn, addr, tx, pong, xauth, block) on every payload up to the "
                   "per-handler length from an arbitrary connection status: no escaping panic, no lock of the handler's lock set held at return, work proportional to the payload.",
              ref="6/C18", note=NOTE + "Senders, counters and deep callees (ProcessNewHeader, block store, mempool effects) are stubs with arbitrary results; listed per harness in the evidence. "),
  "C01": dict(text="Bounded model checking of the script interpreter's leaf predicates against transcriptions of Bitcoin Core's: script-number decode/encode, CastToBool, "
